@@ -61,6 +61,10 @@ func c05CLIEval(c *fw.Ctx, k c05CLICase) (sig, desc string) {
 	if k.Fault == "source-truncated" {
 		os.Truncate(spath, 1000)
 	}
+	optMethod, optXFF := wt.Sum, float32(0)
+	if k.Fault == "options-differ-from-destination-header" {
+		optMethod, optXFF = wt.Average, 0.5 // same layout, other meta: nothing of the existing header may change
+	}
 	pre, _ := os.ReadFile(dpath)
 	textOut := ""
 	if k.Fault == "report-unwritable" {
@@ -68,13 +72,17 @@ func c05CLIEval(c *fw.Ctx, k c05CLICase) (sig, desc string) {
 	}
 	var cmd Executor
 	if k.CLI == "copy" {
-		cmd = &wcmd.CopyCommand{SrcBase: sbase, SrcRelPath: "it/x/a.wsp", DestBase: dbase, AggregationMethod: wt.Sum, ArchiveInfoList: archList(l.Archs), ArchiveID: k.Arch, TextOut: textOut, CopyNaN: k.NaN}
+		cmd = &wcmd.CopyCommand{SrcBase: sbase, SrcRelPath: "it/x/a.wsp", DestBase: dbase, AggregationMethod: optMethod, XFilesFactor: optXFF, ArchiveInfoList: archList(l.Archs), ArchiveID: k.Arch, TextOut: textOut, CopyNaN: k.NaN}
 	} else {
-		cmd = &wcmd.SumCopyCommand{SrcBase: sbase, DestBase: dbase, ItemPattern: "it/*", SrcPattern: "*.wsp", DestRelPath: "a.wsp", AggregationMethod: wt.Sum, ArchiveInfoList: archList(l.Archs), ArchiveID: k.Arch, TextOut: textOut}
+		cmd = &wcmd.SumCopyCommand{SrcBase: sbase, DestBase: dbase, ItemPattern: "it/*", SrcPattern: "*.wsp", DestRelPath: "a.wsp", AggregationMethod: optMethod, XFilesFactor: optXFF, ArchiveInfoList: archList(l.Archs), ArchiveID: k.Arch, TextOut: textOut}
 	}
 	err, pn := RunCommand(now, cmd)
 	post, _ := os.ReadFile(dpath)
 	ctx := fmt.Sprintf("%s fault=%s fill=1/%d archive=%d copy-nan=%v", k.CLI, k.Fault, k.Fill, k.Arch, k.NaN)
+	// whatever the outcome: the length and the header bytes of an existing file never change after its creation
+	if hs := dl.HeaderSize(); len(post) != len(pre) || !bytes.Equal(post[:hs], pre[:hs]) {
+		return "C05/cli/" + k.CLI + "/existing-destination-length-or-header-changed/" + k.Fault, fmt.Sprintf("%s: the existing destination had %d bytes and now has %d; header changed: %v", ctx, len(pre), len(post), len(post) < hs || !bytes.Equal(post[:hs], pre[:hs]))
+	}
 	switch classify(err, pn) {
 	case "panic":
 		return "", "" // C16's business
@@ -96,7 +104,7 @@ func c05CLIEval(c *fw.Ctx, k c05CLICase) (sig, desc string) {
 
 func c05CLI(c *fw.Ctx) {
 	for _, cli := range []string{"copy", "sum-copy"} {
-		for _, fault := range []string{"report-unwritable", "layout-mismatch", "source-truncated"} {
+		for _, fault := range []string{"report-unwritable", "layout-mismatch", "source-truncated", "options-differ-from-destination-header", "none"} {
 			for _, fill := range []int{1, 2} {
 				for _, arch := range []int{-1, 0} {
 					for _, nan := range []bool{false, true} {
